@@ -62,6 +62,7 @@ class Instance:
         self.allowed = {}       # host -> set of values possibly delivered
         self.scanned = 0        # conns already folded into the cookie model
         self.shared = False     # driven by two tasks at the same time
+        self.asked_profile = False
 
 
 class Op:
@@ -282,6 +283,7 @@ class C14(World):
             is_prof = "PROFMSGSRQV1" in kinds
             if is_prof:
                 n_prof += 1
+                inst.asked_profile = True
                 if kinds != {"PROFMSGSRQV1"}:
                     self.violate("C14", "I4-body", "profile-mixed", f"{where}: profile request also carries {sorted(kinds)}")
                 # I5 -- profile requests: configured URL, anonymous credentials
@@ -296,6 +298,13 @@ class C14(World):
                                  f"{where}: a profile request was sent although profile lookup was to be skipped")
             else:
                 n_main += 1
+                if op.mode == "normal" and not inst.asked_profile:
+                    # the advertised URL can only be known from the institution: a client instance that sends
+                    # credentials without ever having asked for the profile is using hearsay (a disk cache of
+                    # unknown age written by some earlier process)
+                    self.violate("C14", "I5-destination", "credentials-before-any-profile-lookup",
+                                 f"{where}: this client instance sends the user's credentials although it has never "
+                                 f"requested the institution's profile (profile lookup was not to be skipped)")
                 want = self.expected_msgsets(op)
                 if kinds != want:
                     self.violate("C14", "I4-body", "message-sets",
@@ -449,6 +458,9 @@ class C14(World):
                     self.judge_op(op)
         else:
             n_tasks = 2 + ch.pick("conc.tasks", 2)
+            if ch.flag("conc.stalls", 0.35):
+                sim.seam_stall_k = [6, 15, 3][ch.pick("conc.stalls.k", 3)]
+                sim.hot_salt = ch.pick("conc.stalls.salt", 1 << 16)
             plans = []
             for t in range(n_tasks):
                 if plans and ch.flag("conc.share_instance", 0.25):
